@@ -89,8 +89,9 @@ def check(run, M, tier):
     for cname, prim in (("FFT", "fft"), ("IFFT", "ifft")):
         f = M.func("sigpy.linop.%s._apply" % cname)
         calls = [c for c in ast.walk(f.node) if isinstance(c, ast.Call) and isinstance(c.func, ast.Attribute) and c.func.attr in ("fft", "ifft")]
-        ok = len(calls) == 1 and calls[0].func.attr == prim and [unparse(a) for a in calls[0].args] == ["input"] and \
-            sorted((k.arg, unparse(k.value)) for k in calls[0].keywords) == [("axes", "self.axes"), ("center", "self.center")]
+        from ..common import bound_args
+        ba = bound_args(M, f, calls[0]) if len(calls) == 1 else None
+        ok = ba is not None and calls[0].func.attr == prim and ba == {"input": "input", "oshape": "None", "axes": "self.axes", "center": "self.center", "norm": "'ortho'"}
         run.check(ok, "F3", cname + "._apply", f.loc(), "calls fourier.%s(input, axes=self.axes, center=self.center)" % prim,
                   "%s._apply calls `%s`; expected fourier.%s(input, axes=self.axes, center=self.center) with the orthonormal default"
                   % (cname, unparse(calls[0]) if calls else "nothing", prim), stmt="F3:apply:" + cname)
